@@ -76,6 +76,43 @@ func ruleOptWriters(p *Prog, r *Report) {
 							continue
 						}
 					}
+					// handed to an unexported module helper that only loads and stores through the pointer: the caller is the writer
+					if ci, isCall := in.(ssa.CallInstruction); isCall {
+						if h := staticCallee(ci.Common()); h != nil && p.InModule(h) && !p.Exported(h) && len(h.Blocks) > 0 {
+							okUse, stores := true, false
+							for i, a := range ci.Common().Args {
+								if a != ssa.Value(g) || i >= len(h.Params) {
+									continue
+								}
+								for _, ref := range *h.Params[i].Referrers() {
+									switch y := ref.(type) {
+									case *ssa.UnOp:
+										if y.Op != token.MUL {
+											okUse = false
+										}
+									case *ssa.Store:
+										if y.Addr == ssa.Value(h.Params[i]) {
+											stores = true
+										} else {
+											okUse = false
+										}
+									case *ssa.DebugRef:
+									default:
+										okUse = false
+									}
+								}
+							}
+							if okUse {
+								if stores {
+									if w[g] == nil {
+										w[g] = map[*ssa.Function]bool{}
+									}
+									w[g][f] = true
+								}
+								continue
+							}
+						}
+					}
 					escaped = p.Name(f) + " at " + p.Pos(in.Pos())
 				}
 			})
@@ -265,12 +302,12 @@ func ruleOptSetter(p *Prog, r *Report) {
 }
 
 // lastStore returns the value last stored to g along the path (nil if none) and whether any store happened.
-func lastStore(path cfgPath, g *ssa.Global) (ssa.Value, *ssa.Store) {
+func lastStore(path cfgPath, g ssa.Value) (ssa.Value, *ssa.Store) {
 	var val ssa.Value
 	var st *ssa.Store
 	for _, b := range path.Blocks {
 		for _, in := range b.Instrs {
-			if s, ok := in.(*ssa.Store); ok && s.Addr == ssa.Value(g) {
+			if s, ok := in.(*ssa.Store); ok && s.Addr == g {
 				val = s.Val
 				st = s
 			}
@@ -351,25 +388,34 @@ func variadicParam(fn *ssa.Function) *ssa.Parameter {
 
 // matchPattern decides whether the value stored on this path matches an accepted pattern.
 func matchPattern(cz *canonizer, pat string, val ssa.Value, path cfgPath, g *ssa.Global, variadic *ssa.Parameter) bool {
-	gname := g.Pkg.Pkg.Name() + "." + g.Name()
+	return matchPatternT(cz, pat, val, path, g, variadic)
+}
+
+// matchPatternT: target is the option variable itself or, in a helper that the setter hands the variable's address to, the
+// pointer parameter that stands for it.
+func matchPatternT(cz *canonizer, pat string, val ssa.Value, path cfgPath, target ssa.Value, variadic *ssa.Parameter) bool {
+	isLoad := func(v ssa.Value) bool {
+		u, ok := v.(*ssa.UnOp)
+		return ok && u.Op == token.MUL && u.X == target
+	}
 	switch {
 	case pat == "same":
 		if val == nil {
 			return true
 		}
-		return cz.of(val) == "load("+gname+")"
+		return isLoad(val)
 	case pat == "toggle":
 		if val == nil {
 			return false
 		}
-		if cz.of(val) == "!(load("+gname+"))" {
+		if u, ok := val.(*ssa.UnOp); ok && u.Op == token.NOT && isLoad(u.X) {
 			return true
 		}
 		// if x { x = false } else { x = true }
 		if b, ok := constBool(val); ok {
 			for _, c := range path.Conds {
 				ng := normGuard(c)
-				if cz.of(ng.Cond) == "load("+gname+")" && ng.Pol == !b {
+				if isLoad(ng.Cond) && ng.Pol == !b {
 					return true
 				}
 			}
@@ -402,13 +448,53 @@ func isLoadOfIndex0(v ssa.Value, prm *ssa.Parameter) bool {
 }
 
 func checkSetter(p *Prog, r *Report, rule string, fn *ssa.Function, g *ssa.Global, sp setterSpec) {
+	var target ssa.Value = g
+	va := variadicParam(fn)
+	// the optional-argument convention may live in a helper that gets the variable's address and the argument list
+	direct := false
+	eachInstr(fn, func(b *ssa.BasicBlock, in ssa.Instruction) {
+		if st, ok := in.(*ssa.Store); ok && st.Addr == ssa.Value(g) {
+			direct = true
+		}
+	})
+	if !direct {
+		var calls []*ssa.Call
+		eachInstr(fn, func(b *ssa.BasicBlock, in ssa.Instruction) {
+			if c, ok := in.(*ssa.Call); ok {
+				for _, a := range c.Call.Args {
+					if a == ssa.Value(g) {
+						calls = append(calls, c)
+					}
+				}
+			}
+		})
+		if len(calls) == 1 && len(fn.Blocks) == 1 {
+			c := calls[0]
+			if h := staticCallee(&c.Call); h != nil && p.InModule(h) && !p.Exported(h) && len(h.Blocks) > 0 {
+				var tp, vp *ssa.Parameter
+				for i, a := range c.Call.Args {
+					if i >= len(h.Params) {
+						continue
+					}
+					if a == ssa.Value(g) {
+						tp = h.Params[i]
+					}
+					if va != nil && a == ssa.Value(va) {
+						vp = h.Params[i]
+					}
+				}
+				if tp != nil && (va == nil || vp != nil) {
+					fn, target, va = h, tp, vp
+				}
+			}
+		}
+	}
 	cz := p.canonFor(fn)
 	paths, ok := enumPaths(fn, 4096)
 	if !ok {
 		r.Unknown(rule, sp.Fn, "paths", p.Pos(fn.Pos()), "setter is not loop-free (or has too many paths): branch-refined reaching definitions not computed")
 		return
 	}
-	va := variadicParam(fn)
 	classes := []int64{0}
 	names := []string{"call"}
 	if va != nil {
@@ -430,10 +516,10 @@ func checkSetter(p *Prog, r *Report, rule string, fn *ssa.Function, g *ssa.Globa
 				continue
 			}
 			feasible++
-			val, st := lastStore(path, g)
+			val, st := lastStore(path, target)
 			matched := false
 			for _, pat := range pats {
-				if matchPattern(cz, pat, val, path, g, va) {
+				if matchPatternT(cz, pat, val, path, target, va) {
 					matched = true
 					break
 				}
@@ -477,11 +563,23 @@ func checkPrepend(p *Prog, r *Report, rule string) {
 	why := ""
 	for _, path := range paths {
 		val, _ := lastStore(path, g)
+		if val == nil {
+			// delegated to SetAttrPrefix (whose own obligation is that it stores its argument)
+			for _, b := range path.Blocks {
+				for _, in := range b.Instrs {
+					if c, ok := in.(*ssa.Call); ok {
+						if h := staticCallee(&c.Call); h != nil && p.Name(h) == "mxj.SetAttrPrefix" && len(c.Call.Args) == 1 {
+							val = c.Call.Args[0]
+						}
+					}
+				}
+			}
+		}
 		pol, found := false, false
 		for _, c := range path.Conds {
-			ng := normGuard(c)
-			if ng.Cond == ssa.Value(fn.Params[0]) {
-				pol, found = ng.Pol, true
+			tv, tpol := boolTest(c)
+			if tv == ssa.Value(fn.Params[0]) {
+				pol, found = tpol, true
 			}
 		}
 		if val == nil || !found {
@@ -921,11 +1019,15 @@ func rulePairDerived(p *Prog, r *Report) {
 		_, flagStore = lastStore(path, dt)
 		pol, found := false, false
 		for _, c := range path.Conds {
-			ng := normGuard(c)
+			tv, tpol := boolTest(c)
+			ng := guard{tv, tpol}
 			if cz.of(ng.Cond) != "load(mxj.disableTrimWhiteSpace)" && globalOf(ng.Cond) != dt {
 				continue
 			}
-			ld := ng.Cond.(*ssa.UnOp)
+			ld, isLd := ng.Cond.(*ssa.UnOp)
+			if !isLd {
+				continue
+			}
 			if flagStore != nil && !(flagStore.Block() == ld.Block() && indexIn(flagStore) < indexIn(ld)) && !flagStore.Block().Dominates(ld.Block()) {
 				// the load may precede the store on this path: check order on the path
 				if !before(path, flagStore, ld) {
